@@ -3,7 +3,7 @@
 cd "$(dirname "$0")/.." || exit 2
 TIER=${1:-quick}
 rc=0
-for p in C01 C02 C04 C05 C06 C07 C08 C09 C10 C11 C12 C13 C14 C15 C16 C17 C18 C19 C20; do
+for p in C01 C02 C03 C04 C05 C06 C07 C08 C09 C10 C11 C12 C13 C14 C15 C16 C17 C18 C19 C20; do
   out=$(./check $p --tier $TIER 2>&1); e=$?
   echo "$p exit=$e $(echo "$out" | grep -E "^$p |controls:" | tr '\n' ' ')"
   [ $e -ne 0 ] && { echo "$out" | grep -E "FAILED|VIOLATION|ANALYSIS-ERROR|CONTROL-FAILED" | head -5; rc=1; }
